@@ -55,8 +55,15 @@ def _shape(k, s, rels):
         rows = ""
         ncols = max(len(r) for r in s[1])
         for row in s[1]:
-            rows += '<a:tr h="1000">' + "".join(
-                f"<a:tc>{_txbody(cell, 'a:txBody')}<a:tcPr/></a:tc>" for cell in row) + "</a:tr>"
+            tcs = ""
+            for j, cell in enumerate(row):
+                # an empty cell right of a non-empty one is written as the covered cell of a horizontal merge:
+                # DrawingML keeps the full grid (origin gridSpan="2", covered position <a:tc hMerge="1">)
+                covered = j > 0 and not cell and bool(row[j - 1])
+                origin = j + 1 < len(row) and bool(cell) and not row[j + 1]
+                attr = ' hMerge="1"' if covered else (' gridSpan="2"' if origin else "")
+                tcs += f"<a:tc{attr}>{_txbody(cell, 'a:txBody')}<a:tcPr/></a:tc>"
+            rows += f'<a:tr h="1000">{tcs}</a:tr>'
         grid = "".join('<a:gridCol w="1000"/>' for _ in range(ncols))
         return (f'<p:graphicFrame><p:nvGraphicFramePr><p:cNvPr id="{k+2}" name="Table {k}"/><p:cNvGraphicFramePr/>'
                 f'<p:nvPr/></p:nvGraphicFramePr>{_xfrm(k, "p")}<a:graphic><a:graphicData '
@@ -64,8 +71,14 @@ def _shape(k, s, rels):
                 f'<a:tblGrid>{grid}</a:tblGrid>{rows}</a:tbl></a:graphicData></a:graphic></p:graphicFrame>')
     ph = {"title": '<p:ph type="title"/>', "body": '<p:ph type="body" idx="1"/>', "text": ""}[kind]
     paras = [s[1]] if kind == "title" else s[1]
-    return (f'<p:sp><p:nvSpPr><p:cNvPr id="{k+2}" name="Shape {k}"/><p:cNvSpPr/><p:nvPr>{ph}</p:nvPr></p:nvSpPr>'
-            f'<p:spPr>{_xfrm(k)}</p:spPr>{_txbody(paras)}</p:sp>')
+    sp = (f'<p:sp><p:nvSpPr><p:cNvPr id="{k+2}" name="Shape {k}"/><p:cNvSpPr/><p:nvPr>{ph}</p:nvPr></p:nvSpPr>'
+          f'<p:spPr>{_xfrm(k)}</p:spPr>{_txbody(paras)}</p:sp>')
+    if kind == "text" and k % 2 == 1:
+        # a free text box at an odd position sits inside a group shape (child coordinates = slide coordinates)
+        sp = (f'<p:grpSp><p:nvGrpSpPr><p:cNvPr id="{k+200}" name="Group {k}"/><p:cNvGrpSpPr/><p:nvPr/></p:nvGrpSpPr>'
+              '<p:grpSpPr><a:xfrm><a:off x="0" y="0"/><a:ext cx="9144000" cy="6858000"/><a:chOff x="0" y="0"/>'
+              f'<a:chExt cx="9144000" cy="6858000"/></a:xfrm></p:grpSpPr>{sp}</p:grpSp>')
+    return sp
 
 
 def _pic(k, n, rid):
